@@ -11,6 +11,8 @@
 //	errorSkip        the condition under which responseCompressor.WriteHeader clears the encoding
 //	clientFallback   the status constant doRequest compares with before clearing `encodings`
 //	clientDecodeBelow the bound of `response.StatusCode < N` that ends the loop
+//	bufferingSigners for signers/appmanifest and signers/cat: the value of `const maxInputSize`, the argument of the
+//	                 ReadAll call in sign() and the condition that refuses an over-long blob ("?"/0 when absent)
 //
 //	extractchttp <repo> <out.lean>
 //
@@ -382,6 +384,83 @@ func main() {
 			})
 		}
 	}
+	// ---- the signers that buffer their input
+	type bufSigner struct {
+		pkg       string
+		max       int64
+		arg, cond string
+	}
+	var evalInt func(e ast.Expr) (int64, bool)
+	evalInt = func(e ast.Expr) (int64, bool) {
+		switch v := e.(type) {
+		case *ast.BasicLit:
+			if v.Kind == token.INT {
+				n, err := strconv.ParseInt(v.Value, 0, 64)
+				return n, err == nil
+			}
+		case *ast.ParenExpr:
+			return evalInt(v.X)
+		case *ast.BinaryExpr:
+			a, ok1 := evalInt(v.X)
+			b, ok2 := evalInt(v.Y)
+			if ok1 && ok2 {
+				switch v.Op {
+				case token.MUL:
+					return a * b, true
+				case token.ADD:
+					return a + b, true
+				case token.SHL:
+					return a << uint(b), true
+				}
+			}
+		}
+		return 0, false
+	}
+	var bufSigners []bufSigner
+	for _, pkg := range []string{"signers/appmanifest", "signers/cat"} {
+		bs := bufSigner{pkg: pkg, arg: "?", cond: "?"}
+		sf, err := parser.ParseFile(fset, filepath.Join(repo, filepath.FromSlash(pkg), "signer.go"), nil, 0)
+		if err == nil {
+			for _, d := range sf.Decls {
+				switch v := d.(type) {
+				case *ast.GenDecl:
+					if v.Tok != token.CONST {
+						continue
+					}
+					for _, sp := range v.Specs {
+						vs := sp.(*ast.ValueSpec)
+						for i, id := range vs.Names {
+							if id.Name == "maxInputSize" && i < len(vs.Values) {
+								if n, ok := evalInt(vs.Values[i]); ok {
+									bs.max = n
+								}
+							}
+						}
+					}
+				case *ast.FuncDecl:
+					if v.Name.Name != "sign" || v.Recv != nil || v.Body == nil {
+						continue
+					}
+					ast.Inspect(v.Body, func(n ast.Node) bool {
+						switch x := n.(type) {
+						case *ast.CallExpr:
+							if f := str(x.Fun); (f == "ioutil.ReadAll" || f == "io.ReadAll") && len(x.Args) == 1 && bs.arg == "?" {
+								bs.arg = str(x.Args[0])
+							}
+						case *ast.IfStmt:
+							if c := str(x.Cond); strings.HasPrefix(c, "len(blob) >") && len(x.Body.List) == 1 {
+								if rs, ok := x.Body.List[0].(*ast.ReturnStmt); ok && len(rs.Results) == 2 && str(rs.Results[0]) == "nil" {
+									bs.cond = c
+								}
+							}
+						}
+						return true
+					})
+				}
+			}
+		}
+		bufSigners = append(bufSigners, bs)
+	}
 	// ---- output
 	var sb strings.Builder
 	sb.WriteString("/- GENERATED by tools/extractchttp (tables of lib/compresshttp and the client's fallback; properties C09, C14). Do not edit. -/\n")
@@ -435,6 +514,14 @@ func main() {
 	fmt.Fprintf(&sb, "/-- condition under which responseCompressor.WriteHeader clears the encoding -/\ndef errorSkip : String := %s\n\n", q(errorSkip))
 	fmt.Fprintf(&sb, "/-- condition under which doRequest clears `encodings` and starts over -/\ndef clientFallback : String := %s\n\n", q(clientFallback))
 	fmt.Fprintf(&sb, "/-- `response.StatusCode < N` ends the loop; the answer is then decompressed -/\ndef clientBelow : String := %s\n\n", q(clientBelow))
+	sb.WriteString("/-- signers whose sign() reads the whole input: ⟨package, maxInputSize, argument of ReadAll, refusing condition⟩ -/\ndef bufferingSigners : List (String × Nat × String × String) := [")
+	for i, b := range bufSigners {
+		if i > 0 {
+			sb.WriteString(", ")
+		}
+		fmt.Fprintf(&sb, "(%s, %d, %s, %s)", q(b.pkg), b.max, q(b.arg), q(b.cond))
+	}
+	sb.WriteString("]\n\n")
 	sb.WriteString("end Relic.Generated.CompressHttp\n")
 	if err := os.WriteFile(os.Args[2], []byte(sb.String()), 0644); err != nil {
 		fmt.Fprintln(os.Stderr, err)
